@@ -28,6 +28,10 @@ Act(ev) ==
      [] ev.name = "Destroy" -> Destroy(c)
      [] ev.name = "PushBack" -> PushBack(c, a)
      [] ev.name = "EmplaceBack" -> EmplaceBack(c, a)
+     \* the argument is an element of the vector itself (v.push_back(v[i]), v.insert(pos, v[i])): std::vector copies it before anything moves
+     [] ev.name = "PushBackSelf" -> PushBack(c, el[c][a + 1])
+     [] ev.name = "EmplaceBackSelf" -> EmplaceBack(c, el[c][a + 1])
+     [] ev.name = "InsertSelf" -> Insert(c, a, el[c][b + 1])
      [] ev.name = "Insert" -> Insert(c, a, b)
      [] ev.name = "Emplace" -> Emplace(c, a, b)
      [] ev.name = "Erase" -> Erase(c, a, b)
@@ -43,7 +47,7 @@ Act(ev) ==
      [] OTHER -> Query(c)
 RetErrs(ev) ==
    LET c == ev.c a == ev.a IN
-   CASE ev.name \in {"Insert", "Emplace"} -> IF ev.ret # a THEN {"returned_position"} ELSE {}
+   CASE ev.name \in {"Insert", "Emplace", "InsertSelf"} -> IF ev.ret # a THEN {"returned_position"} ELSE {}
      [] ev.name = "Eq" -> IF ev.ret # B2I(SeqEq(el[c], el[a])) THEN {"equality"} ELSE {}
      [] ev.name = "Less" -> IF ev.ret # B2I(LexLess(el[c], el[a], 1)) THEN {"ordering"} ELSE {}
      [] ev.name = "At" -> IF a >= Len(el[c]) THEN (IF ev.threw # 1 THEN {"at_must_throw"} ELSE {})
